@@ -11,7 +11,7 @@
     A result [Err(e)] of the executor is represented by the reply the server would
     build from it (error_to_reply): only the first word matters ([r_err],
     [r_wrongtype]); the script layer (Model/Lua.v) then flattens every error to ERR. *)
-From Ferrous Require Import Base.Bytes Model.Resp Model.Types Model.Glob Model.Utf8 Model.Strings Model.Lists.
+From Ferrous Require Import Base.Bytes Model.Resp Model.Types Model.Glob Model.Utf8 Model.Strings Model.Streams Model.Lists.
 Open Scope Z_scope.
 
 (** ---- CommandParser::extract_string / extract_bytes ---- *)
@@ -112,7 +112,13 @@ Inductive xcmd :=
 | XHExists (k f : bytes)
 | XHKeys (k : bytes)
 | XHVals (k : bytes)
-| XHIncrBy (k f : bytes) (n : Z).
+| XHIncrBy (k f : bytes) (n : Z)
+(* StreamCommand (XREAD and the consumer-group commands are not modelled here) *)
+| XXAdd (k : bytes) (id : option bytes) (fs : list (bytes * bytes))
+| XXLen (k : bytes)
+| XXRange (rev : bool) (k st en : bytes) (count : option Z)
+| XXTrim (k strategy : bytes) (threshold : Z)
+| XXDel (k : bytes) (ids : list bytes).
 
 (** ---- CommandParser::parse_* (None = Err(..), every one an "ERR ..." message) ---- *)
 Definition default_options : set_options :=
@@ -243,6 +249,68 @@ Definition parse_ping (fr : list frame) : option xcmd :=
   | _ => None
   end.
 
+(** extract_string of every frame *)
+Fixpoint x_all_strs (l : list frame) : option (list bytes) :=
+  match l with
+  | [] => Some []
+  | f :: r => match x_str f with
+              | Some b => match x_all_strs r with Some t => Some (b :: t) | None => None end
+              | None => None
+              end
+  end.
+(** XADD key id field value [field value ...]: at least 5 frames, an odd number *)
+Definition parse_xadd (fr : list frame) : option xcmd :=
+  if (len fr <? 5) || negb (len fr mod 2 =? 1) then None else
+  match fr with
+  | _ :: k :: i :: fs =>
+      match x_bytes k, x_str i, x_pairs fs with
+      | Some kb, Some ib, Some l => Some (XXAdd kb (if beq ib (bs "*") then None else Some ib) l)
+      | _, _, _ => None
+      end
+  | _ => None
+  end.
+(** XRANGE / XREVRANGE key a b [COUNT n]: COUNT is looked at only when there are exactly 6 frames;
+    any other tail is silently ignored *)
+Definition parse_xrange (rev : bool) (fr : list frame) : option xcmd :=
+  match fr with
+  | _ :: k :: a :: b :: tail =>
+      match x_bytes k, x_str a, x_str b with
+      | Some kb, Some ab, Some bb =>
+          match tail with
+          | [c; n] =>
+              match x_str c with
+              | None => None
+              | Some cw =>
+                  if beq (upper cw) (bs "COUNT") then
+                    match x_int parse_usize n with
+                    | Some cnt => Some (XXRange rev kb ab bb (Some cnt))
+                    | None => None
+                    end
+                  else Some (XXRange rev kb ab bb None)
+              end
+          | _ => Some (XXRange rev kb ab bb None)
+          end
+      | _, _, _ => None
+      end
+  | _ => None
+  end.
+(** XTRIM key strategy threshold: frames beyond the fourth are ignored *)
+Definition parse_xtrim (fr : list frame) : option xcmd :=
+  match fr with
+  | _ :: k :: st :: th :: _ =>
+      match x_bytes k, x_str st, x_int parse_usize th with
+      | Some kb, Some sb, Some n => Some (XXTrim kb sb n)
+      | _, _, _ => None
+      end
+  | _ => None
+  end.
+Definition parse_xdel (fr : list frame) : option xcmd :=
+  match fr with
+  | _ :: k :: (_ :: _) as ids =>
+      match x_bytes k, x_all_strs ids with Some kb, Some l => Some (XXDel kb l) | _, _ => None end
+  | _ => None
+  end.
+
 (** CommandParser::parse: the command name is extract_string(..).to_uppercase(); the match on it *)
 Definition parse_named (name : bytes) (fr : list frame) : option xcmd :=
       if beq name (bs "SET") then parse_set fr
@@ -325,6 +393,12 @@ Definition parse_named (name : bytes) (fr : list frame) : option xcmd :=
       else if beq name (bs "DBSIZE") then Some XDbSize
       else if beq name (bs "KEYS") then
         match fr with [_; p] => option_map XKeys (x_bytes p) | _ => None end
+      else if beq name (bs "XADD") then parse_xadd fr
+      else if beq name (bs "XLEN") then parse_k XXLen fr
+      else if beq name (bs "XRANGE") then parse_xrange false fr
+      else if beq name (bs "XREVRANGE") then parse_xrange true fr
+      else if beq name (bs "XTRIM") then parse_xtrim fr
+      else if beq name (bs "XDEL") then parse_xdel fr
       else None.                                                      (* UnknownCommand *)
 
 Definition parse (fr : list frame) : option xcmd :=
@@ -519,9 +593,9 @@ Definition execute (now : Z) (d : db) (c : xcmd) (oracle : option frame) : frame
   | XSMembers k => on_key d k e_smembers
   | XSCard k => on_key d k e_scard
   | XSIsMember k m => on_key d k (e_sismember m)
-  | XSUnion ks => (sres_reply (eng_sunion d ks), d)
-  | XSInter ks => (sres_reply (eng_sinter d ks), d)
-  | XSDiff ks => (sres_reply (eng_sdiff d ks), d)
+  | XSUnion ks => (Lists.sres_reply (eng_sunion d ks), d)
+  | XSInter ks => (Lists.sres_reply (eng_sinter d ks), d)
+  | XSDiff ks => (Lists.sres_reply (eng_sdiff d ks), d)
   | XHSet k ps => on_key d k (e_hset false ps)
   | XHGet k f => on_key d k (e_hget f)
   | XHMSet k ps => on_key d k (e_hset true ps)
@@ -533,6 +607,16 @@ Definition execute (now : Z) (d : db) (c : xcmd) (oracle : option frame) : frame
   | XHKeys k => on_key d k e_hkeys
   | XHVals k => on_key d k e_hvals
   | XHIncrBy k f n => on_key d k (e_hincrby f n)
+  (* execute_stream: the frames are rebuilt and handed to the handlers of commands/streams.rs *)
+  | XXAdd k id fs =>
+      h_xadd d (frames_of (bs "XADD") (k :: (match id with Some i => i | None => bs "*" end) :: flat_bytes fs)) oracle
+  | XXLen k => h_xlen d (frames_of (bs "XLEN") [k])
+  | XXRange rev k a b count =>
+      let fr := frames_of (if rev then bs "XREVRANGE" else bs "XRANGE")
+                  (k :: a :: b :: match count with Some c => [bs "COUNT"; print_nat c] | None => [] end) in
+      if rev then h_xrevrange d fr else h_xrange d fr
+  | XXTrim k st n => h_xtrim d (frames_of (bs "XTRIM") [k; st; print_nat n])
+  | XXDel k ids => h_xdel d (frames_of (bs "XDEL") (k :: ids))
   end.
 
 (** LuaCommandAdapter::execute_lua_command / ServerCommandAdapter::execute_with_context *)
